@@ -686,7 +686,9 @@ class Merge(MultiCrossBlock):
         else:
             alignment = normalize_alignment(who, alignment)
         for b in blocks:
-            if b.alignment != alignment:
+            # A block with a single crossing has no alignment choice of its own
+            # (its alignment is the EQUAL_PREAMBLE default), so it fits any alignment.
+            if b.alignment != alignment and not (b.alignment == AlignmentMode.EQUAL_PREAMBLE and len(b.crossings) <= 1):
                 raise ValueError(who, "Blocks have different alignments.")
         mode = normalize_mode(who, mode)
 
